@@ -19,7 +19,7 @@ LEVEL_TEXT = ("Exhaustive for the valid graph at k = 2 (every mask x bool/int64)
               "dna_string)), with other parameter names, positional-only parameters and bool / numpy.bool_ / 0-1 int results, "
               "asymmetric predicates so reversed or rotated k-mers show; k = 1..6.")
 LEVEL_NOTE = "Trusts itertools.product enumeration of k-mers and the induced-sub-graph construction in vlib/graphs.py."
-PLAN = {"quick": dict(shards=16, budget=100), "thorough": dict(shards=32, budget=300)}
+PLAN = {"quick": dict(shards=16, budget=100), "thorough": dict(shards=16, budget=300)}
 EXHAUSTIVE = ["valid graph: all 65536 order-2 masks x {bool,int64}"]
 RULE = ("find_vertices(k, f) for f in {LocalBioFilter grid, documented user filters: forbidden k-mer sets, first != last symbol, "
         "position-dependent, GC window from the documentation, parity, accept-all/none/one} x signature styles x result types, "
